@@ -1,4 +1,5 @@
 //! Model-checking harness for the maybenot properties (see /verif/DESIGN.md).
+pub mod alloc;
 pub mod checks;
 pub mod clock;
 pub mod explore;
